@@ -498,12 +498,16 @@ pub fn replay_events(t: &Tables, input: &str, output: &str) -> Value {
 pub fn slice_events(input: &str, output: &str) -> Value {
     use crate::time_control::GameTime;
     use std::io::Write;
-    let lines: Vec<String> = serde_json::from_str(&std::fs::read_to_string(input).unwrap()).unwrap();
+    // input: a list of go lines, or of objects {"line": .., "canon": ..} where canon is the same go without its unknown
+    // tokens (the specification checks that both parse to the same values by ITS scan; the engine must then plan the same)
+    let raw: Vec<Value> = serde_json::from_str(&std::fs::read_to_string(input).unwrap()).unwrap();
+    let lines: Vec<String> = raw.iter().map(|v| v.as_str().map(|x| x.to_string()).unwrap_or_else(|| v["line"].as_str().unwrap_or("").to_string())).collect();
+    let canons: Vec<Option<String>> = raw.iter().map(|v| v.get("canon").and_then(|c| c.as_str()).map(|x| x.to_string())).collect();
     let mut out = std::fs::File::create(output).unwrap();
     let mut n = 0;
     let clamp = |x: u128| -> i64 { if x > 2_000_000_000 { 2_000_000_000 } else { x as i64 } };
     let ci = |x: i128| -> i64 { x.clamp(-2_000_000_000, 2_000_000_000) as i64 };
-    for line in &lines {
+    for (li, line) in lines.iter().enumerate() {
         // the engine sees the line through its own clean_input + split(' '), as in the command loop; the tokens handed to
         // the specification are split independently
         let cleaned = catch_unwind(AssertUnwindSafe(|| crate::utils::clean_input(&format!("{}\n", line)))).unwrap_or_default();
@@ -527,6 +531,27 @@ pub fn slice_events(input: &str, output: &str) -> Value {
                 "slice_w": clamp(sw), "slice_b": clamp(sb), "slice_w_alt": clamp(aw), "slice_b_alt": clamp(ab)}),
             Err(_) => json!({"ev": "slice", "line": line, "toks": toks, "panic": true}),
         };
+        let mut ev = ev;
+        if let Some(canon) = &canons[li] {
+            let ccleaned = catch_unwind(AssertUnwindSafe(|| crate::utils::clean_input(&format!("{}\n", canon)))).unwrap_or_default();
+            let cetoks: Vec<&str> = ccleaned.split(' ').collect();
+            let ctoks: Vec<&str> = canon.split_whitespace().collect();
+            let rc = catch_unwind(AssertUnwindSafe(|| {
+                let gt = crate::uci::verif_parse_go_command(&cetoks);
+                (gt.wtime, gt.btime, gt.winc, gt.binc, gt.movestogo, gt.calculate_time_slice(PieceColor::White), gt.calculate_time_slice(PieceColor::Black))
+            }));
+            ev["canon_toks"] = json!(ctoks);
+            match rc {
+                Ok((wt, bt, wi, bi, mtg, sw, sb)) => {
+                    ev["canon_parsed"] = json!({"wtime": ci(wt), "btime": ci(bt), "winc": ci(wi), "binc": ci(bi), "movestogo": mtg.unwrap_or(0)});
+                    ev["canon_slice_w"] = json!(clamp(sw));
+                    ev["canon_slice_b"] = json!(clamp(sb));
+                }
+                Err(_) => {
+                    ev["canon_panic"] = json!(true);
+                }
+            }
+        }
         writeln!(out, "{}", ev).unwrap();
         n += 1;
     }
